@@ -153,6 +153,20 @@ fn run_index(seed: u64, i: u64, gp: &GenParams, opts: &ExecOpts, agg: &mut Agg, 
         let frep = execute(&fsc, opts);
         agg.absorb(i, "fault", &fsc, frep);
     }
+    // A lexing fault on the same input, from a stream of its own (so that adding this variant did
+    // not change what every other index does): the lexer reports an error after the whole input
+    // (half of the time: if the input was a sentence, everything before the error parses) or in
+    // place of a random lexeme, and stops there or carries on.
+    let mut r2 = Rng::new(mix(seed, ENGINE_TAG ^ 0x1e8_e44, i));
+    if !disc && r2.chance(12) {
+        let mut lsc = base.clone();
+        let n = lsc.tokens.len() as u64;
+        let k = if r2.chance(50) { n } else { r2.below(n + 1) };
+        lsc.lex_error = Some((k as usize, r2.chance(40)));
+        emit_sc(&lsc, "lexerr");
+        let lrep = execute(&lsc, opts);
+        agg.absorb(i, "lexerr", &lsc, lrep);
+    }
 }
 
 fn write_u64s(p: &Path, v: &[u64]) {
@@ -586,7 +600,7 @@ pub fn check_main(prop: &str, tier: &str) -> i32 {
         seed,
         evaluations: total.evaluations,
         distinct_nontrivial: dn,
-        rule: format!("index i of stream VERIF_SEED -> (grammar from corpus/LR(1) templates/unconstrained random, token string = mutated derivation or random, token costs, hash seed, Tick clock); inputs with a parse error get with probability 0.6 a second run under a time-fault policy (Frac<1, Frac>1, Jump, Jump x2). Non-trivial for {prop} = {}; distinct = distinct digest of (grammar text, tokens, costs, hash seed, clock policy).", match prop {
+        rule: format!("index i of stream VERIF_SEED -> (grammar from corpus/LR(1) templates/unconstrained random, token string = mutated derivation or random, token costs, hash seed, Tick clock); inputs with a parse error get with probability 0.6 a second run under a time-fault policy (Frac<1, Frac>1, Jump, Jump x2); with probability 0.12 (from a stream of its own) a further run in which the lexer reports an error after the input or in place of a random lexeme, stopping there or carrying on; the two RTParserBuilder setters are called in an order that alternates with the hash seed. Non-trivial for {prop} = {}; distinct = distinct digest of (grammar text, tokens, costs, hash seed, clock policy).", match prop {
             "C08" => "at least one lexeme was parsed (actions ran)",
             "C07" => "at least one lexeme, or a parse error / loop scenario",
             _ => "the parse reported at least one parse error (recovery ran)",
@@ -607,7 +621,7 @@ pub fn check_main(prop: &str, tier: &str) -> i32 {
         return EXIT_HARNESS;
     }
     println!(
-        "engine R: {} runs ({} fault-free, {} with time faults), {} distinct non-trivial for {prop}, {} distinct states, {:.1}s, loghash {:016x}",
+        "engine R: {} runs ({} fault-free, {} with injected clock or lexer faults), {} distinct non-trivial for {prop}, {} distinct states, {:.1}s, loghash {:016x}",
         total.evaluations, total.fault_free_runs, total.fault_runs, dn, nstates, wall, total.loghash
     );
     for l in &known_lines {
